@@ -93,7 +93,9 @@ def deadline():
 
 
 def make_id(tok):
-    """Harness-chosen request id: distinct per token, never equal to a token or a result, strings and integers."""
+    """Harness-chosen request id: strings, integers and the falsy id 0; never equal to a token or a result."""
+    if tok % 5 == 4:
+        return 0  # a falsy but valid id: the request is a call and must be answered (token still identifies the reply)
     return "q%d" % tok if tok % 3 else 7000000 + tok
 
 
